@@ -81,6 +81,8 @@ pub enum BOp {
     /// `Object::take` and drop the bare wrapper
     Take { h: u8 },
     Status,
+    /// `SyncWrapper::lock()` on a held connection (only while no closure is using it: it blocks)
+    Lock { h: u8 },
     Nop,
 }
 
@@ -1053,6 +1055,31 @@ fn do_take<B: Bk>(actor: usize, held: &mut Held<B>, h: u8) {
     set_phase(actor, Phase::Idle);
 }
 
+fn do_lock<B: Bk>(actor: usize, held: &mut Held<B>, h: u8) {
+    if held.is_empty() {
+        return;
+    }
+    let i = h as usize % held.len();
+    let (serial, obj) = &held[i];
+    let serial = *serial;
+    let called = engine::no_yield(|| {
+        if matches!(obj.try_lock(), Err(TryLockError::WouldBlock)) {
+            return false;
+        }
+        // the caller looks at the connection directly; whatever it finds, the guard is dropped again
+        let _ = obj.lock();
+        true
+    });
+    with_w(|w| {
+        w.ops += 1;
+        if called {
+            trace!("client{} calls lock() on connection #{}", actor, serial);
+            engine::log_event(&[470, actor as u64, serial as u64]);
+            w.probe("lock_called");
+        }
+    });
+}
+
 fn do_status<B: Bk>(pool: &Pool<B::M>, actor: usize) {
     set_phase(actor, Phase::Other);
     // not under no_yield: the slots lock may be held by a suspended actor
@@ -1080,6 +1107,7 @@ fn run_op<B: Bk>(pool: &Pool<B::M>, actor: usize, held: &mut Held<B>, op: BOp) {
         BOp::Interact { h, kind, cancellable } => do_interact::<B>(actor, held, h, kind, cancellable),
         BOp::Take { h } => do_take::<B>(actor, held, h),
         BOp::Status => do_status::<B>(pool, actor),
+        BOp::Lock { h } => do_lock::<B>(actor, held, h),
         BOp::Nop => {}
     }
 }
@@ -1625,7 +1653,13 @@ pub fn gen_backends(rng: &mut Rng, thorough: bool) -> BScenario {
                     holding -= 1;
                     BOp::Take { h: rng.below(3) as u8 }
                 }
-                _ => BOp::Status,
+                _ => {
+                    if rng.below(100) < 60 {
+                        BOp::Status
+                    } else {
+                        BOp::Lock { h: rng.below(3) as u8 }
+                    }
+                }
             };
             let _ = k;
             ops.push(op);
@@ -1740,6 +1774,7 @@ fn op_name(o: &BOp) -> String {
         BOp::Return { .. } => "Return".into(),
         BOp::Interact { kind, cancellable, .. } => format!("Interact!{:?}{}", kind, if *cancellable { "+canc" } else { "" }),
         BOp::Take { .. } => "Take".into(),
+        BOp::Lock { .. } => "Lock".into(),
         BOp::Status => "Status".into(),
         BOp::Nop => "Nop".into(),
     }
